@@ -208,6 +208,12 @@ def py_len(ex, v, st):
         return SInt(z3.Length(v.z))
     if isinstance(v, LRef):
         return ex.list_len(st, v)
+    if isinstance(v, Opaque) and v.name == 'strsplit':
+        # number of words of s.split(): the same uninterpreted count that bounds the word indices
+        zs = ex.z_str(v.data['of'])
+        n = ex.W.nwords(zs)
+        st.assume(n >= 0)
+        return SInt(n)
     if isinstance(v, Sym):
         h = getattr(ex, 'len_of', None)
         if h:
